@@ -1,7 +1,15 @@
 (** STARTTLS on the wire (Model/SmtpWire.v, [run_stream_tls]): the byte-level loop with the switch to TLS is still a
     run of the session step over its items - so every item-level theorem (sequencing, one reply per line, the size
     and accept rules, [delivery_exact]) holds of it -, it is the plain loop when there is no plaintext left, and
-    plaintext pipelined behind an accepted STARTTLS line is never executed: the result does not depend on it. *)
+    plaintext pipelined behind an accepted STARTTLS line is never executed: the result does not depend on it.
+    STATUS (second audit): [starttls_switch] / [injected_plaintext_is_never_executed] hold by the definition of the
+    model's switch ([drop_plain]); that the code behaves so is tied by the smtptls stream (real handshake, plaintext
+    pipelined in the same segment) and by the mutant seeded/own-C03-starttls-injection.  Scope: plaintext that was in
+    the session's 4 KiB read buffer when the connection was wrapped.  What had not been read yet reaches the TLS
+    handshake as garbage: it is not executed either, but the session ends there - the model would go on with the TLS
+    part.  The plain loops [run_bytes] / [run_net] / [run_net_w] are the model of a TLS-enabled server only for streams
+    with nothing pipelined behind an accepted STARTTLS ([tls_stream_without_plaintext] is the bridge at byte level;
+    TLS together with pauses or failing writes is not modelled). *)
 From IV Require Import Base.Bytes Base.BytesFacts Model.Policy Model.Smtp Model.Dot Model.SmtpWire Proofs.SmtpInv Proofs.SmtpThms Proofs.DotCodec Proofs.SmtpCut Proofs.SmtpTls.
 From Coq Require Import ZifyBool ZifyNat ZifyN Lia.
 
